@@ -6,6 +6,7 @@ import Tw.Proofs.HuffmanRefC
 import Tw.Proofs.HuffmanRefD
 import Tw.Proofs.HuffmanStream
 import Tw.Model.HuffmanFreq
+import Tw.Proofs.HuffmanFreq
 import Tw.Gen.Huffman
 
 /-!
@@ -170,10 +171,29 @@ theorem reference_is_stricter_witness :
 /-- The full statement for `Huffman::from_frequencies`: every vector of 256 `u32` frequencies yields a
 table to which all of the above applies.  **Not provable**: `from_frequencies` panics when the
 Huffman tree is deeper than 24 (open finding D16, e.g. all-zero frequencies — model and
-implementation both `panic` on the replay in `corpus/huffman/finding-d16.txt`). -/
+implementation both `panic` on the replay in `corpus/huffman/finding-d16.txt`; `C07_full_witness`). -/
 def C07_full : Prop :=
   ∀ f : List Nat, f.length = 256 → (∀ x ∈ f, x < 2 ^ 32) →
     ∃ t, fromFrequencies f = .ok t ∧ WellFormed t ∧ LutOk t
+
+/-- The counterexample in the model (D16): on the all-zero frequency vector every merge has
+frequency 0, the stable sort keeps the newest parent last, the tree is a chain of depth 256 and the
+25th push onto the 24-entry stack is the `ArrayVec` capacity panic.  Proved symbolically (the kernel
+cannot evaluate 256 sorts of 257 elements in reasonable time). -/
+theorem fromFrequencies_allzero_witness :
+    fromFrequencies (List.replicate 256 0)
+      = .panic "stack.push: ArrayVec capacity (code longer than 24 bits)" :=
+  fromFrequencies_zero_panics
+
+/-- … hence the full statement is false in the model (as it is in the implementation). -/
+theorem C07_full_witness : ¬ C07_full := by
+  intro hfull
+  obtain ⟨t, ht, _⟩ := hfull (List.replicate 256 0) (List.length_replicate ..) (by
+    intro x hx
+    have : x = 0 := List.eq_of_mem_replicate hx
+    subst this; decide)
+  rw [fromFrequencies_zero_panics] at ht
+  cases ht
 
 /-- What is proved instead: for every frequency vector on which the construction succeeds with a table
 satisfying the two decidable predicates (the driver decides them for every sampled vector and
